@@ -1,11 +1,19 @@
-(* C09 — property theorems only. *)
+(* C09 — property theorems only.
+
+   Vocabulary: `step p s o` is the service machine of Model.v over the protocol tables p (generated from /repo);
+   `sedge p` = the implementation's CanTransitionTo relation plus "a non-terminal state may be abandoned";
+   `spec_edge names spec` = the PUBLISHED graph of Spec.v (hand-written) plus the same abandon rule.
+   `step_ok p s o` (Model.v): the states announced by the step continue the thread's persisted state along
+   edges, the new persisted state is one of them (or unchanged), and a terminal state announces nothing.
+   `disciplined`: no message is accepted on a thread while one of its action events is still open. *)
 From Coq Require Import List NArith String Bool.
 Import ListNotations.
-From VF Require Import gen.Gen_C09 C09.Model C09.Spec.
+From VF Require Import gen.Gen_C09 C09.Model C09.Spec C09.Proofs.
 Local Open Scope N_scope.
 
-(* GRAPH OBLIGATIONS on the tables regenerated from /repo on every run (finite: decided by computation).
-   Every pair the implementation's CanTransitionTo allows is an edge of the published graph of the protocol. *)
+(* ---------- obligations on the tables regenerated from /repo on every run (finite, by computation) ---------- *)
+
+(* every pair allowed by the implementation's CanTransitionTo is an edge of the published graph *)
 Theorem graph_refines :
   graph_refines_b ic_names ic_spec ic_edges = true /\
   graph_refines_b pp_names pp_spec pp_edges = true /\
@@ -14,3 +22,141 @@ Theorem graph_refines :
   graph_refines_b legacy_names legacy_spec legacy_edges = true.
 Proof. vm_compute. repeat split. Qed.
 Print Assumptions graph_refines.
+
+(* terminal states (done / abandoned / completed) have no outgoing pair; executing them inbound has no follow-up *)
+Theorem terminal_states_stuck :
+  wf_proto ic_proto = true /\ wf_proto pp_proto = true /\ wf_proto intro_proto = true /\
+  wf_proto didex_proto = true /\ wf_proto legacy_proto = true.
+Proof. vm_compute. repeat split. Qed.
+Print Assumptions terminal_states_stuck.
+
+(* the implementation's message-type -> state map (nextState / stateFromMsgType) is the published one *)
+Theorem targets_refine :
+  targets_refine_b ic_names ic_msgs ic_spec ic_targets = true /\
+  targets_refine_b pp_names pp_msgs pp_spec pp_targets = true /\
+  targets_refine_b intro_names intro_msgs intro_spec intro_targets = true /\
+  ns_targets_refine_b didex_names didex_msgs didex_spec didex_targets = true /\
+  ns_targets_refine_b legacy_names legacy_msgs legacy_spec legacy_targets = true /\
+  names_ok_b ic_names ic_spec = true /\ names_ok_b pp_names pp_spec = true /\
+  names_ok_b intro_names intro_spec = true /\ names_ok_b didex_names didex_spec = true /\
+  names_ok_b legacy_names legacy_spec = true.
+Proof. vm_compute. repeat split. Qed.
+Print Assumptions targets_refine.
+
+(* hence the machine's relation lies inside the published graph, for ALL pairs of states *)
+Theorem sedge_in_published_graph : forall a b,
+  (sedge ic_proto a b = true -> spec_edge ic_names ic_spec a b = true) /\
+  (sedge pp_proto a b = true -> spec_edge pp_names pp_spec a b = true) /\
+  (sedge intro_proto a b = true -> spec_edge intro_names intro_spec a b = true) /\
+  (sedge didex_proto a b = true -> spec_edge didex_names didex_spec a b = true) /\
+  (sedge legacy_proto a b = true -> spec_edge legacy_names legacy_spec a b = true).
+Proof.
+  intros a b. destruct graph_refines as [H1 [H2 [H3 [H4 H5]]]].
+  repeat split; apply sedge_spec; try reflexivity; assumption.
+Qed.
+Print Assumptions sedge_in_published_graph.
+
+(* ---------- FULL-STRENGTH statements that hold for every history (no discipline needed) ---------- *)
+
+(* a rejected message changes nothing: neither the persisted states nor the open events, and announces nothing *)
+Theorem reject_preserves : forall p s o,
+  fst (snd (step p s o)) = RReject -> fst (step p s o) = s /\ snd (snd (step p s o)) = [].
+Proof. exact reject_preserves_gen. Qed.
+Print Assumptions reject_preserves.
+
+(* a message whose target state is not allowed from the thread's current persisted state IS rejected *)
+Theorem disallowed_rejected : forall p s outbound m v3 flag t tape,
+  match target p m v3 outbound with
+  | Some x => can p (cur p s t) x = false
+  | None => True
+  end -> step p s (Msg outbound m v3 flag t tape) = (s, (RReject, [])).
+Proof. exact disallowed_rejected_gen. Qed.
+Print Assumptions disallowed_rejected.
+
+(* and conversely: whatever is not rejected was allowed at the time it arrived *)
+Theorem accepted_allowed : forall p s outbound m v3 flag t tape,
+  fst (snd (step p s (Msg outbound m v3 flag t tape))) <> RReject ->
+  exists x, target p m v3 outbound = Some x /\ can p (cur p s t) x = true.
+Proof. exact accepted_allowed_gen. Qed.
+Print Assumptions accepted_allowed.
+
+(* a step only touches the thread it works on *)
+Theorem threads_independent : forall p s o t',
+  (forall t, op_thread s o = Some t -> t' <> t) -> cur p (fst (step p s o)) t' = cur p s t'.
+Proof. exact step_other. Qed.
+Print Assumptions threads_independent.
+
+(* ---------- THE PROPERTY: full statement, refuted as the code is; partial under the busy discipline ---------- *)
+
+(* FULL STATEMENT (false for the code as it is): every step of every history respects the graph.
+   Refuted on the faithful model by the history found on the real services (DESIGN section 11 #16, corpus/C09):
+   the same request twice -> two action events; Continue #0 -> request-received, credential-issued; ack -> done;
+   Continue #1 -> request-received, credential-issued announced AFTER done and persisted over it. *)
+Theorem paths_refuted :
+  exists ops, all_steps_ok ic_proto s0 ops = false /\
+              terminal ic_proto (cur ic_proto (final ic_proto s0 (firstn 4 ops)) 1) = true /\
+              cur ic_proto (final ic_proto s0 ops) 1 <> cur ic_proto (final ic_proto s0 (firstn 4 ops)) 1.
+Proof.
+  exists [Msg false 2 false false 1 []; Msg false 2 false false 1 []; Continue 0 4 [];
+          Msg false 4 false false 1 []; Continue 1 4 []].
+  vm_compute. repeat split; discriminate.
+Qed.
+Print Assumptions paths_refuted.
+
+(* present-proof: prover waits for the ack, a problem-report raises an event, the ack completes the thread,
+   the stale event then overwrites done with abandoned *)
+Theorem paths_refuted_presentproof :
+  exists ops, all_steps_ok pp_proto s0 ops = false /\ disciplined pp_proto s0 ops = false.
+Proof.
+  exists [Msg false 1 false true 1 []; Continue 0 3 []; Msg false 4 false false 1 [];
+          Msg false 3 false false 1 []; Continue 1 0 []].
+  vm_compute. split; reflexivity.
+Qed.
+Print Assumptions paths_refuted_presentproof.
+
+(* PARTIAL: for ANY protocol tables whose terminal states are stuck, every disciplined history of any length,
+   over any threads, message types, options, Stop/Continue decisions and follow-up tapes, respects the graph at
+   every step. *)
+Theorem paths_partial : forall p, terminal_stuck_b p = true ->
+  forall ops, disciplined p s0 ops = true -> all_steps_ok p s0 ops = true.
+Proof. intros p H ops Hd. apply (run_steps_ok p H ops s0 (inv_s0 p) Hd). Qed.
+Print Assumptions paths_partial.
+
+(* PARTIAL: once a thread's persisted state is terminal it never changes again (disciplined histories) *)
+Theorem terminal_stable_partial : forall p, terminal_stuck_b p = true ->
+  forall ops1 ops2 t, disciplined p s0 (ops1 ++ ops2) = true ->
+  terminal p (cur p (final p s0 ops1) t) = true ->
+  cur p (final p s0 (ops1 ++ ops2)) t = cur p (final p s0 ops1) t.
+Proof.
+  intros p H ops1 ops2 t Hd Ht. destruct (disciplined_app p ops1 s0 ops2 Hd) as [H1 H2].
+  rewrite final_app. apply (run_terminal p H); [apply run_inv; [exact H|apply inv_s0|exact H1]|exact H2|exact Ht].
+Qed.
+Print Assumptions terminal_stable_partial.
+
+(* the instances: the three services whose loop the machine models, with the tables of the current /repo *)
+Theorem paths_partial_instances :
+  (forall ops, disciplined ic_proto s0 ops = true -> all_steps_ok ic_proto s0 ops = true) /\
+  (forall ops, disciplined pp_proto s0 ops = true -> all_steps_ok pp_proto s0 ops = true) /\
+  (forall ops, disciplined intro_proto s0 ops = true -> all_steps_ok intro_proto s0 ops = true).
+Proof. repeat split; apply paths_partial; vm_compute; reflexivity. Qed.
+Print Assumptions paths_partial_instances.
+
+(* ---------- non-vacuity ---------- *)
+
+(* a disciplined issuer history with a negotiation loop, a failing Continue (abandoning -> done), a second thread,
+   a rejected duplicate and a message after done *)
+Example paths_nonvacuous :
+  let ops := [Msg false 0 false false 1 []; Continue 0 2 []; Msg false 0 false false 1 []; Continue 1 2 [];
+              Msg false 2 false false 1 []; Msg false 2 false false 2 []; Continue 2 4 []; Continue 3 0 [];
+              Msg false 4 false false 1 []; Msg false 2 false false 1 []; Msg false 4 false false 1 []] in
+  disciplined ic_proto s0 ops = true /\ all_steps_ok ic_proto s0 ops = true /\
+  cur ic_proto (final ic_proto s0 ops) 1 = 3 /\ cur ic_proto (final ic_proto s0 ops) 2 = 3 /\
+  map fst (snd (run ic_proto s0 ops)) =
+    [RAction; ROk; RAction; ROk; RAction; RAction; ROk; ROk; ROk; RReject; RReject].
+Proof. vm_compute. repeat split. Qed.
+
+Example terminal_stable_nonvacuous :
+  let ops1 := [Msg true 1 false true 1 []; Msg false 2 false false 1 []; Continue 0 0 []] in
+  terminal pp_proto (cur pp_proto (final pp_proto s0 ops1) 1) = true /\
+  disciplined pp_proto s0 (ops1 ++ [Msg false 4 false false 1 []; Msg true 1 false false 1 []]) = true.
+Proof. vm_compute. split; reflexivity. Qed.
